@@ -632,6 +632,14 @@ fn check_trees<S: Open>(
     collector: &CheckResultsCollector,
 ) -> RusticResult<BTreeSet<PackId>> {
     let mut packs = BTreeSet::new();
+    // The packs containing the root trees are used, too: subtrees and data blobs are added below when
+    // they are referenced by a node, but root trees are only referenced by the snapshots.
+    // (A root tree which is missing in the index is reported by the tree streamer.)
+    for id in &snap_trees {
+        if let Some(entry) = index.get_tree(id) {
+            _ = packs.insert(entry.pack);
+        }
+    }
     let p = repo.progress_counter("checking trees...");
     let mut tree_streamer = TreeStreamerOnce::new(be, index, snap_trees, p)?;
     while let Some(item) = tree_streamer.next().transpose()? {
